@@ -22,7 +22,7 @@ func init() {
 	})
 }
 
-var c10States = []string{"idle", "mid_stream", "blocked_on_window", "output_full_to_server", "output_full_to_client"}
+var c10States = []string{"idle", "mid_stream", "blocked_on_window", "output_full_to_server", "output_full_to_client", "before_preface"}
 var c10Events = []string{"client_closes", "server_closes", "write_error_to_client", "write_error_to_server", "garbage_from_client", "garbage_from_server", "shutdown"}
 
 func runC10(k *kernel.K) {
@@ -36,6 +36,11 @@ func runC10(k *kernel.K) {
 	cl, sv := hw.cl, hw.sv
 	state := c10States[w.Draw(len(c10States))]
 	event := c10Events[w.Draw(len(c10Events))]
+	if state == "before_preface" {
+		// the client is connected and the upstream dialled, but the client has not sent its
+		// connection preface yet: only these ways of ending make sense
+		event = []string{"client_closes", "shutdown", "garbage_from_client"}[w.Draw(3)]
+	}
 	k.Note("state=%s event=%s policy=%d cap=%d", state, event, n.DefaultPolicy, n.DefaultCap)
 
 	req := func(id uint32) *H2Op {
@@ -84,7 +89,12 @@ func runC10(k *kernel.K) {
 		return fmt.Sprintf("%s|%d.%d|%d.%d|%v", n.Fingerprint(), cl.next, len(cl.Recv), sv.next, len(sv.Recv), d)
 	}
 
-	cl.SendPreface()
+	if state != "before_preface" {
+		cl.SendPreface()
+	} else {
+		cl.Script, sv.Script = nil, nil
+		k.Probe("ended_before_the_preface")
+	}
 	// Reach the state.
 	if strings.HasPrefix(state, "output_full") {
 		// let the session come up, then stop draining the stalled side
@@ -145,7 +155,10 @@ func runC10(k *kernel.K) {
 			hw.scSys.Stall(false)
 			provoke(cl)
 		case "garbage_from_client":
-			if illegalSettings {
+			if state == "before_preface" {
+				// 24 bytes or more that are not the connection preface
+				cl.C.Inject([]byte("GET / HTTP/1.1\r\nHost: origin.test\r\n\r\n"))
+			} else if illegalSettings {
 				cl.C.Inject(c10IllegalSettings(k))
 			} else {
 				cl.C.Inject(c10Garbage(k))
